@@ -176,6 +176,7 @@ class Env:
         Component.media  # the base class is resolved once and for all
         self.tasks = {}
         self.mcount = 0
+        self.pkg_files = None
 
     def close(self):
         shutil.rmtree(self.dir, ignore_errors=True)
@@ -231,8 +232,36 @@ class Env:
         self.tasks[tname] = (page, tpls)
         return self.tasks[tname]
 
+    def build_slot(self, spec):
+        """Two-component page: `card` has a slot with default content; the page fills it (variant fill) or not (default).
+        Every text is specific to the task, so a render that picks up another thread's slot content is visible."""
+        from django_components import Component, registry
+        tname = spec["name"]
+        if tname in self.tasks:
+            return self.tasks[tname]
+        card_src = "<section>{%% slot 'body' %%}%s default for {{ who }}{%% endslot %%}</section>" % tname
+        if spec["variant"] == "fill":
+            page_src = ("<main>{%% component 'c07_%s_2' who=who %%}{%% fill 'body' %%}%s fill for {{ who }}{%% endfill %%}"
+                        "{%% endcomponent %%}</main>" % (tname, tname))
+        else:
+            page_src = "<main>{%% component 'c07_%s_2' who=who / %%}</main>" % tname
+        tpls = {1: page_src, 2: card_src}
+        for idx, src in tpls.items():
+            cls = type("C07_%s_%d" % (tname, idx), (Component,), {
+                "template": src, "get_context_data": (lambda self, who=None: {"who": who}), "_c07_idx": idx,
+                "__module__": "verif_c07_%s" % tname})
+            registry.register("c07_%s_%d" % (tname, idx), cls)
+            cls.template
+            if idx == 1:
+                page_cls = cls
+        self.tasks[tname] = (page_cls, tpls)
+        return self.tasks[tname]
+
     def make_fn(self, spec, shared):
         from django.template import Context
+        if spec["kind"] == "slot":
+            page_cls, _ = self.build_slot(spec)
+            return lambda: page_cls.render(kwargs={"who": "w-" + spec["name"]}, render_dependencies=False)
         if spec["kind"] == "render":
             page, _ = self.build_render(spec)
             return lambda: page.render(Context({}))
@@ -270,6 +299,12 @@ class Env:
             spec = next(s for s in family["threads"] if s["kind"] == "render" and s["name"] == tname)
             _, tpls = self.build_render(spec)
             cached_template(tpls[idx])
+        if cfg.get("pre_all"):
+            for spec in family["threads"]:
+                if spec["kind"] in ("render", "slot"):
+                    tpls = (self.build_render(spec) if spec["kind"] == "render" else self.build_slot(spec))[1]
+                    for idx in sorted(tpls):
+                        cached_template(tpls[idx])
         if not cfg.get("ns", True):
             nsd.clear()
         elif "component" not in nsd:
@@ -323,14 +358,17 @@ class Env:
         return {"resid": resid, "lru": lru, "ns": "component" in nsd, "med": med, "cap": cfg["cap"]}
 
     # -- one schedule --------------------------------------------------------------------------
-    def run_one(self, family, names, sched_list, keymap, timeout=15.0, fine=False):
+    def run_one(self, family, names, sched_list, keymap, timeout=15.0, fine=False, sweep=False, locs=False):
         cfg = family["cfg"]
         shared = {}
         if any(s["kind"] == "media" for s in family["threads"]):
             shared["cls"] = self.fresh_media_class(cfg.get("nested", False))
         self.reset(cfg, family)
         fns = {n: self.make_fn(family["threads"][NAMES.index(n)], shared) for n in names}
-        out, trace, aborted = sched.run_schedule(self.table, fns, names, sched_list, timeout=timeout, fine=fine)
+        if sweep and self.pkg_files is None:
+            self.pkg_files = sched.package_files()
+        out, trace, aborted = sched.run_schedule(self.table, fns, names, sched_list, timeout=timeout, fine=fine or sweep,
+                                                 fine_files=self.pkg_files if sweep else None, locs=locs)
         res = {}
         for n in names:
             o = out.get(n, ("abort", None))
@@ -411,6 +449,31 @@ def all_pre(threads):
     return out
 
 
+HUGE = 10 ** 7
+
+
+def slot_task(name, variant):
+    return {"kind": "slot", "name": name, "variant": variant}
+
+
+def sweep_families(tier):
+    """Task pairs for the line-granularity single-pre-emption sweep (default cache size, every template compiled)."""
+    S = []
+
+    def sf(name, threads, **kw):
+        f = fam(name, threads, cap=128, **kw)
+        f["cfg"]["pre_all"] = True
+        f["sweep"] = True
+        S.append(f)
+    sf("sweep-slotfill-slotfill", [slot_task("xa", "fill"), slot_task("xb", "fill")])
+    sf("sweep-slotfill-slotdefault", [slot_task("xa", "fill"), slot_task("xd", "default")])
+    sf("sweep-plain-plain", [T_PLAIN, T_PLAIN2])
+    sf("sweep-inj-inj", [T_INJ, T_INJ2])
+    sf("sweep-nest-failp", [T_NEST, T_FAILP])
+    sf("sweep-media-media", [T_MEDIA, T_MEDIA])
+    return S
+
+
 def families(tier):
     F = []
     # id-keyed tables only (template cache disabled): the class of theorem id_keyed_tables_isolated_partial
@@ -458,6 +521,8 @@ def family_keymap(family):
         if s["kind"] == "render":
             _, tpls = e.build_render(s)
             srcs.update(tpls.values())
+        elif s["kind"] == "slot":
+            srcs.update(e.build_slot(s)[1].values())
     return {src: 10 + i for i, src in enumerate(sorted(srcs))}
 
 
@@ -473,6 +538,8 @@ def item_term(e, tname, tidx, it, keymap, tpls):
 
 
 def task_term(e, spec, tidx, keymap):
+    if spec["kind"] == "slot":
+        return None                      # slot content is outside the model: line-sweep families, direct oracle only
     if spec["kind"] == "media":
         return "TMedia 1%N"
     _, tpls = e.build_render(spec)
@@ -673,9 +740,10 @@ def preemptions(trace, names):
 # ---------------------------------------------------------------------------------------------------------------
 # schedule enumeration (worker side)
 # ---------------------------------------------------------------------------------------------------------------
-def run_rec(e, family, names, segs, keymap, fine=False):
-    rec = e.run_one(family, names, sched.expand(segs), keymap, fine=fine)
-    rec["fine"] = fine
+def run_rec(e, family, names, segs, keymap, fine=False, sweep=False, locs=False):
+    rec = e.run_one(family, names, [tuple(x) for x in segs], keymap, fine=fine, sweep=sweep, locs=locs)
+    rec["fine"] = fine or sweep
+    rec["sweep"] = sweep
     rec["names"] = names
     rec["segs"] = [list(s) for s in segs]
     return rec
@@ -707,9 +775,11 @@ def digest(family, rec, keymap):
     fine = rec.get("fine", False)
     d = {"ex": [list(x) for x in ex], "bad": bad, "trg": trg, "npre": preemptions(rec["trace"], rec["names"]),
          "f3": bool(rec.get("exposed_by_register_empty_check")), "res": rec["res"], "segs": rec["segs"], "fine": fine,
+         "sweep": bool(rec.get("sweep")),
          "term": None if fine else case_term(family, rec, keymap, tts, solo, label_codes_cached(), with_labels)}
     if bad:
-        d["replay"] = {"family": family, "segs": rec["segs"], "fine": fine, "executed": d["ex"], "results": rec["res"],
+        d["replay"] = {"family": family, "segs": rec["segs"], "fine": fine, "sweep": d["sweep"],
+                       "executed": d["ex"] if len(d["ex"]) < 40 else d["ex"][:40], "results": rec["res"],
                        "solo": {n: solo[n]["res"] for n in rec["names"]}, "failed": bad,
                        "residue": rec["obs"]["resid"], "lru": rec["obs"]["lru"], "media": rec["obs"]["med"], "triggers": trg}
     return d
@@ -752,10 +822,41 @@ def job_enum2(args):
 def job_list(args):
     family, seglists = args[:2]
     fine = len(args) > 2 and args[2]
+    sweep = len(args) > 3 and args[3]
     e = env()
     keymap = family_keymap(family)
     names = [NAMES[k] for k in range(len(family["threads"]))]
-    return [digest(family, run_rec(e, family, names, segs, keymap, fine=fine), keymap) for segs in seglists]
+    return [digest(family, run_rec(e, family, names, segs, keymap, fine=fine, sweep=sweep), keymap) for segs in seglists]
+
+
+def job_sweep_plan(args):
+    """Positions at which thread X is parked: EVERY line event of X inside the django_components package (both tiers; the
+    whole sweep costs ~20 ms per position)."""
+    family, tier = args
+    e = env()
+    keymap = family_keymap(family)
+    names = [NAMES[k] for k in range(len(family["threads"]))]
+    plan = {}
+    for x in names:
+        rec = run_rec(e, family, [x], [], keymap, sweep=True, locs=True)
+        steps = [t for t in rec["trace"] if t[0] == x]
+        ns = list(range(len(steps) + 1))
+        plan[x] = {"positions": ns, "line_events": len(steps),
+                   "distinct_lines": len({t[2] for t in steps if t[1] == "_"})}
+    return plan
+
+
+def job_sweep(args):
+    """park X before its (n+1)-th line, run Y (and any third thread) to completion, resume X."""
+    family, x, others, positions = args
+    e = env()
+    keymap = family_keymap(family)
+    names = [NAMES[k] for k in range(len(family["threads"]))]
+    out = []
+    for n in positions:
+        segs = [(x, n)] + [(y, HUGE) for y in others] + [(x, HUGE)]
+        out.append(digest(family, run_rec(e, family, names, segs, keymap, sweep=True), keymap))
+    return out
 
 
 def job_solo(family):
@@ -832,6 +933,8 @@ def plan_jobs(family, solo, tier, rng):
 
 def _dispatch(job):
     kind, args = job
+    if kind == "sweep":
+        return job_sweep(args)
     return job_enum2(args) if kind == "enum" else job_list(args)
 
 
@@ -887,7 +990,7 @@ def run(tier, seed):
         solos = pool.map(job_solo, fams)
         # corpus first (direct oracle)
         corpus = load_corpus()
-        cjobs = [("list", (c["family"], [[tuple(s) for s in c["segs"]]], bool(c.get("fine")))) for _, c in corpus]
+        cjobs = [("list", (c["family"], [[tuple(s) for s in c["segs"]]], bool(c.get("fine")), bool(c.get("sweep")))) for _, c in corpus]
         cres = pool.map(_dispatch, cjobs)
         for (fname, c), recs in zip(corpus, cres):
             d = recs[0]
@@ -901,6 +1004,19 @@ def run(tier, seed):
         for fi, (family, (solo, keymap, tts)) in enumerate(zip(fams, solos)):
             for j in plan_jobs(family, solo, tier, chk.rng):
                 alljobs.append((fi, j))
+        # line-granularity single-pre-emption sweep (direct oracle only)
+        sfams = sweep_families(tier)
+        plans = pool.map(job_sweep_plan, [(f, tier) for f in sfams])
+        for f, plan in zip(sfams, plans):
+            fi = len(fams)
+            fams.append(f)
+            names = [NAMES[k] for k in range(len(f["threads"]))]
+            chk.extra.setdefault("line_sweep", {})[f["name"]] = {x: {k: v for k, v in plan[x].items() if k != "positions"} |
+                                                                   {"parked_at": len(plan[x]["positions"])} for x in names}
+            for x in names:
+                pos = plan[x]["positions"]
+                for c in range(0, len(pos), 25):
+                    alljobs.append((fi, ("sweep", (f, x, [y for y in names if y != x], pos[c:c + 25]))))
         results = pool.map(_dispatch, [j for _, j in alljobs], chunksize=4)
     for (fi, _), recs in zip(alljobs, results):
         family = fams[fi]
@@ -913,7 +1029,8 @@ def run(tier, seed):
             seen.add(key)
             classify(chk, family, d, stats, "enumeration")
             bad, trg, npre = d["bad"], d["trg"], d["npre"]
-            kind = "%s%s/%s" % (family["name"], "/fine" if d["fine"] else "", "isolated" if not bad else "+".join(trg) or "OUTSIDE")
+            kind = "%s%s/%s" % (family["name"], "" if d["sweep"] else "/fine" if d["fine"] else "",
+                                "isolated" if not bad else "+".join(trg) or "OUTSIDE")
             sample = None
             if bad and "+".join(trg) not in sampled:
                 sampled.add("+".join(trg))
@@ -921,7 +1038,9 @@ def run(tier, seed):
                           "triggers": trg, "interference": bad}
             chk.count((family["name"], ex), npre >= 1, kind=kind, sample=sample)
             stats["preemptions=%d" % min(npre, 4)] += 1
-            if d["fine"]:
+            if d["sweep"]:
+                stats["line_sweep_schedules"] += 1
+            elif d["fine"]:
                 stats["fine_grained_schedules"] += 1
             else:
                 terms.append(d["term"])
@@ -970,7 +1089,7 @@ def replay(path):
     keymap = family_keymap(family)
     solo = solo_runs(e, family, keymap)
     names = [NAMES[k] for k in range(len(family["threads"]))]
-    rec = run_rec(e, family, names, [tuple(s) for s in c["segs"]], keymap, fine=bool(c.get("fine")))
+    rec = run_rec(e, family, names, [tuple(s) for s in c["segs"]], keymap, fine=bool(c.get("fine")), sweep=bool(c.get("sweep")))
     print("solo:", {n: solo[n]["res"] for n in names})
     print("run: ", rec["res"])
     print("residue:", rec["obs"]["resid"], "lru:", rec["obs"]["lru"], "media:", rec["obs"]["med"])
